@@ -21,6 +21,9 @@ Conts == <<  <<>>,
              << [indent |-> <<"sp", "sp", "sp">>, k |-> "t"] >>,
              << [indent |-> <<"sp", "sp">>, k |-> "t"], [indent |-> <<"sp", "sp", "sp">>, k |-> "lt"], [indent |-> <<>>, k |-> "blank"], [indent |-> <<"sp", "sp">>, k |-> "tl"] >>  >>
 Inlines == {"none", "emptycolon", "text", "padded", "link"}
+\* the inline link of the j-th tag of a comment names LinkTargets[((j - 1) % 3) + 1]: links of different tags of one comment
+\* have different targets (all three exist in module M), so a link bound to another tag's target is visible
+LinkTargets == <<"T", "S", "E">>
 TagSpecs == [t : {"param"}, id : {"p", "q", "zz"}, inline : Inlines, cont : 1..3]
             \cup [t : {"returns"}, id : {"", "r", "zz"}, inline : Inlines, cont : 1..3]
             \cup [t : {"see"}, id : {"T", "Nope"}, inline : {"none"}, cont : {1}]
@@ -106,7 +109,7 @@ RefSane == Family = "dedent" =>
 Emit ==
   PrintT(<<"CASE", ToJson(
     CASE c.fam = "dedent" -> [fam |-> "dedent", pos |-> c.pos, lines |-> c.lines, exp |-> RefMessage(c.lines)]
-      [] c.fam = "tags" -> [fam |-> "tags", pos |-> c.pos, intro |-> c.intro, conts |-> Conts, tags |-> c.tags, exp |-> ExpTags(c.tags, c.pos)]
+      [] c.fam = "tags" -> [fam |-> "tags", pos |-> c.pos, intro |-> c.intro, conts |-> Conts, ltargets |-> LinkTargets, tags |-> c.tags, exp |-> ExpTags(c.tags, c.pos)]
       [] c.fam = "links" -> [fam |-> "links", items |-> c.items, exp |-> [i \in 1..Len(c.items) |-> ExpLink(c.items[i])]]
       [] c.fam = "malformed" -> [fam |-> "malformed", pos |-> c.pos, form |-> c.form])>>)
 AllPos == Positions \cup TagPositions
